@@ -7,7 +7,10 @@ import (
 	"fmt"
 	"io"
 	"os"
+	"os/exec"
 	"path/filepath"
+	"runtime"
+	"sort"
 	"strings"
 	"time"
 )
@@ -205,6 +208,9 @@ func Main(id, tier string, seed int64, budget time.Duration, root, out string) i
 		}
 	}
 	c.Set("mismatches_not_reproducible_in_isolation", len(unrepro))
+	if p.Word32 && runtime.GOARCH != "386" {
+		reported += word32Pass(c, p, id, root, out)
+	}
 	if err := c.Finish(p, evPath, reported, knownHit); err != nil {
 		fmt.Fprintf(os.Stderr, "vcheck: cannot write evidence: %v\n", err)
 		return 2
@@ -218,6 +224,109 @@ func Main(id, tier string, seed int64, budget time.Duration, root, out string) i
 		return 2
 	}
 	return 0
+}
+
+// word32Pass runs the quick tier of the same check as a 32-bit (GOARCH=386)
+// binary built by check.sh from the same sources, and folds what it covered and
+// what it found into this run. It returns the number of violations reported.
+// When the binary is not available the pass is skipped and the evidence says so.
+func word32Pass(c *Ctx, p *Property, id, root, out string) int {
+	bin := os.Getenv("VERIF_386_BIN")
+	if bin == "" {
+		why := os.Getenv("VERIF_386_ERR")
+		if why == "" {
+			why = "no 386 binary provided (VERIF_386_BIN unset)"
+		}
+		c.Set("goarch_386_pass", "not run: "+why)
+		return 0
+	}
+	tmp, err := os.MkdirTemp(out, ".word32-"+id+"-")
+	if err != nil {
+		c.Set("goarch_386_pass", "not run: "+err.Error())
+		return 0
+	}
+	defer os.RemoveAll(tmp)
+	cmd := exec.Command(bin, "-prop", id, "-tier", "quick", "-root", root, "-out", tmp)
+	var env []string
+	for _, e := range os.Environ() {
+		// helper binaries of the 64-bit run are not handed down
+		if strings.HasPrefix(e, "VERIF_386_BIN=") || strings.HasPrefix(e, "VERIF_DEBUG_BIN=") || strings.HasPrefix(e, "VERIF_SCHED_BIN=") || strings.HasPrefix(e, "VERIF_RACE_BIN=") {
+			continue
+		}
+		env = append(env, e)
+	}
+	cmd.Env = env
+	t0 := time.Now()
+	outb, runErr := cmd.CombinedOutput()
+	code := 0
+	if runErr != nil {
+		code = -1
+		if ee, ok := runErr.(*exec.ExitError); ok {
+			code = ee.ExitCode()
+		}
+	}
+	var ev Evidence
+	if b, err := os.ReadFile(filepath.Join(tmp, "evidence", id+".json")); err == nil {
+		json.Unmarshal(b, &ev)
+	}
+	if code != 0 && code != 1 || ev.PropertyID != id {
+		// the 32-bit run itself broke (an internal error of the harness, a crash): say so, loudly,
+		// but do not turn it into a verdict about the library
+		fmt.Fprintf(os.Stderr, "vcheck: the GOARCH=386 pass of %s did not complete (exit %d): %s\n", id, code, clip(string(outb), 2000))
+		c.Set("goarch_386_pass", fmt.Sprintf("did not complete (exit %d): %s", code, clip(string(outb), 300)))
+		c.Cap("the GOARCH=386 pass did not complete")
+		return 0
+	}
+	c.Set("goarch_386_pass", "quick tier of this check re-run as a GOARCH=386 binary (32-bit int, uint, uintptr)")
+	for _, k := range []string{"evaluations", "distinct_nontrivial", "exhaustive", "mismatches_seen"} {
+		if v, ok := ev.Coverage[k]; ok {
+			c.Set("goarch_386_"+k, v)
+		}
+	}
+	c.Set("goarch_386_wall_s", time.Since(t0).Seconds())
+	// violations: re-home the replay files, marked with the build configuration they need
+	files, _ := filepath.Glob(filepath.Join(tmp, "replays", "*.json"))
+	sort.Strings(files)
+	n := 0
+	for _, f := range files {
+		b, err := os.ReadFile(f)
+		if err != nil {
+			continue
+		}
+		var m map[string]interface{}
+		if json.Unmarshal(b, &m) != nil {
+			continue
+		}
+		dst := filepath.Join(out, "replays", strings.TrimSuffix(filepath.Base(f), ".json")+"-386.json")
+		m["goarch"] = "386"
+		m["how_to_replay"] = []string{
+			"/verif/check.sh replay " + dst + "   (builds the 32-bit binary)",
+			"cd /verif/harness && GOARCH=386 CGO_ENABLED=0 VERIF_REPLAY=" + dst + " go test -count=1 -run TestReplay ./replaytest/",
+		}
+		nb, _ := json.MarshalIndent(m, "", " ")
+		if os.WriteFile(dst, append(nb, '\n'), 0644) != nil {
+			continue
+		}
+		n++
+		fmt.Printf("VIOLATION property=%s replay=%s\n", id, dst)
+		fmt.Printf("  on GOARCH=386 (32-bit int/uint): %v %s\n  got:  %s\n  want: %s\n", m["kind"], clip(fmt.Sprint(string(mustJSON(m["case"]))), 400), clip(fmt.Sprint(m["got"]), 400), clip(fmt.Sprint(m["want"]), 400))
+	}
+	if code == 1 && n == 0 {
+		fmt.Fprintf(os.Stderr, "vcheck: the GOARCH=386 pass of %s reported a violation but left no replay file: %s\n", id, clip(string(outb), 2000))
+		c.Cap("the GOARCH=386 pass reported a violation without a replay file")
+	}
+	// known findings matched by the 32-bit run are printed by it
+	for _, l := range strings.Split(string(outb), "\n") {
+		if strings.HasPrefix(l, "KNOWN-FINDING:") {
+			fmt.Println(l + " [GOARCH=386]")
+		}
+	}
+	return n
+}
+
+func mustJSON(v interface{}) []byte {
+	b, _ := json.Marshal(v)
+	return b
 }
 
 func clip(s string, n int) string {
